@@ -291,6 +291,12 @@ func RunSession(spec *SessSpec) *Trace {
 		cfg.Metadata.Config = map[string]string{"fileName": tr.FilePath}
 		if len(spec.PreStore) > 0 {
 			m := map[string]any{}
+			// the file back end always stores the whole assignment; a realistic file has every vBucket
+			for vb := 0; vb < spec.NumVB; vb++ {
+				if _, ok := spec.PreStore[vb]; !ok {
+					m[fmt.Sprint(vb)] = map[string]any{"checkpoint": map[string]any{"vbuuid": 0, "seqno": 0, "snapshot": map[string]any{"startSeqno": 0, "endSeqno": 0}}, "bucketUuid": env.Sim.UUID}
+				}
+			}
 			for vb, c := range spec.PreStore {
 				m[fmt.Sprint(vb)] = map[string]any{"checkpoint": map[string]any{"vbuuid": c[0], "seqno": c[1], "snapshot": map[string]any{"startSeqno": c[2], "endSeqno": c[3]}}, "bucketUuid": env.Sim.UUID}
 			}
@@ -440,8 +446,21 @@ func (s *session) barrier() {
 		seq     uint64
 	}
 	wants := map[int]want{}
+	reqStart := map[int]uint64{}
+	for _, r := range s.env.Log.Filter(func(r evlog.Rec) bool { return r.K == "sim.rx" && r.Op == cbsim.OpDcpStreamReq }) {
+		reqStart[r.VB] = r.A
+	}
 	for vb := 0; vb < s.spec.NumVB; vb++ {
 		for _, it := range s.env.Sim.HistoryCopy(uint16(vb)) {
+			if _, rb := s.spec.Rollbacks[vb]; rb && it.SeqNo <= s.spec.PreStore[vb][1] {
+				continue // replayed at or below the checkpointed position after a rollback: filtered
+			}
+			if ps, ok := s.spec.PreStore[vb]; ok && it.SeqNo <= ps[1] {
+				continue // below the resume position: never streamed
+			}
+			if it.SeqNo <= reqStart[vb] {
+				continue // at or below the position the stream was requested from
+			}
 			if w, ok := observable(s.spec, it); ok {
 				wants[vb] = want{w, it.SeqNo}
 			}
